@@ -294,6 +294,154 @@ impl raindb::fs::FileSystem for GateFs {
 /// memtable is pending: the compaction loop flushes the memtable first and signals the condition
 /// variable although the task is not finished; the close must keep waiting (and keep the lock)
 /// until the task has ended. Until then nobody else may open or destroy the database.
+/// a filesystem that parks the first removal (`remove_dir_all` / `remove_file` / `remove_dir`) of
+/// an armed thread until it is released: `destroy_database` is then stopped in the middle of its
+/// deletion phase
+struct RemovalGateFs {
+    inner: Arc<TmpFileSystem>,
+    armed: std::sync::atomic::AtomicBool,
+    parked: std::sync::atomic::AtomicBool,
+    release: std::sync::atomic::AtomicBool,
+}
+
+impl RemovalGateFs {
+    fn gate(&self) {
+        use std::sync::atomic::Ordering::SeqCst;
+        if self.armed.swap(false, SeqCst) {
+            self.parked.store(true, SeqCst);
+            let t0 = std::time::Instant::now();
+            while !self.release.load(SeqCst) && t0.elapsed() < std::time::Duration::from_secs(15) {
+                std::thread::sleep(std::time::Duration::from_millis(1));
+            }
+        }
+    }
+}
+
+impl raindb::fs::FileSystem for RemovalGateFs {
+    fn get_name(&self) -> String {
+        self.inner.get_name()
+    }
+    fn create_dir(&self, path: &std::path::Path) -> std::io::Result<()> {
+        self.inner.create_dir(path)
+    }
+    fn create_dir_all(&self, path: &std::path::Path) -> std::io::Result<()> {
+        self.inner.create_dir_all(path)
+    }
+    fn list_dir(&self, path: &std::path::Path) -> std::io::Result<Vec<std::path::PathBuf>> {
+        self.inner.list_dir(path)
+    }
+    fn open_file(&self, path: &std::path::Path) -> std::io::Result<Box<dyn raindb::fs::ReadonlyRandomAccessFile>> {
+        self.inner.open_file(path)
+    }
+    fn rename(&self, from: &std::path::Path, to: &std::path::Path) -> std::io::Result<()> {
+        self.inner.rename(from, to)
+    }
+    fn create_file(&self, path: &std::path::Path, append: bool) -> std::io::Result<Box<dyn raindb::fs::RandomAccessFile>> {
+        self.inner.create_file(path, append)
+    }
+    fn remove_file(&self, path: &std::path::Path) -> std::io::Result<()> {
+        self.gate();
+        self.inner.remove_file(path)
+    }
+    fn remove_dir(&self, path: &std::path::Path) -> std::io::Result<()> {
+        self.gate();
+        self.inner.remove_dir(path)
+    }
+    fn remove_dir_all(&self, path: &std::path::Path) -> std::io::Result<()> {
+        self.gate();
+        self.inner.remove_dir_all(path)
+    }
+    fn get_file_size(&self, path: &std::path::Path) -> std::io::Result<u64> {
+        self.inner.get_file_size(path)
+    }
+    fn is_dir(&self, path: &std::path::Path) -> std::io::Result<bool> {
+        self.inner.is_dir(path)
+    }
+    fn lock_file(&self, path: &std::path::Path) -> std::io::Result<raindb::fs::FileLock> {
+        self.inner.lock_file(path)
+    }
+}
+
+/// `destroy_database` is the owner while it deletes: an open (or a second destroy) arriving in the
+/// middle of the deletion phase must fail, and must not be left with a half-deleted database
+fn open_during_destroy(seed: u64) -> Vec<Fail> {
+    use std::sync::atomic::Ordering::SeqCst;
+    let mut rng = Prng::new(seed);
+    let mut fails = vec![];
+    let base = std::env::temp_dir().join(format!("rainverif-c17d-{}-{}", std::process::id(), seed));
+    let _ = std::fs::create_dir_all(&base);
+    let tmp = Arc::new(TmpFileSystem::new(Some(&base)));
+    let gate = Arc::new(RemovalGateFs { inner: tmp.clone(), armed: false.into(), parked: false.into(), release: false.into() });
+    let reuse = rng.chance(1, 2);
+    let mk = |fs: Arc<RemovalGateFs>| DbOptions {
+        db_path: tmp.get_root_path().join("db").to_string_lossy().to_string(),
+        filesystem_provider: fs,
+        create_if_missing: true,
+        max_memtable_size: 2048,
+        reuse_log_files: reuse,
+        ..DbOptions::default()
+    };
+    {
+        let db = match DB::open(mk(gate.clone())) {
+            Ok(d) => d,
+            Err(e) => return vec![("c17:first-open-failed".into(), e.to_string())],
+        };
+        for i in 0..rng.range(1, 60) {
+            let _ = db.put(WriteOptions::default(), format!("k{i:03}").into_bytes(), vec![b'v'; rng.range(1, 80) as usize]);
+        }
+    }
+    gate.armed.store(true, SeqCst);
+    let (g2, o2) = (gate.clone(), mk(gate.clone()));
+    let destroyer = std::thread::spawn(move || {
+        let r = DB::destroy_database(o2);
+        g2.release.store(true, SeqCst);
+        r.is_ok()
+    });
+    let t0 = std::time::Instant::now();
+    while !gate.parked.load(SeqCst) && !destroyer.is_finished() && t0.elapsed() < std::time::Duration::from_secs(10) {
+        std::thread::sleep(std::time::Duration::from_millis(1));
+    }
+    if gate.parked.load(SeqCst) {
+        // the destroyer stands inside its deletion phase
+        let second_destroy = rng.chance(1, 3);
+        if second_destroy {
+            if DB::destroy_database(mk(gate.clone())).is_ok() {
+                fails.push(("c17:second-destroy-succeeds-during-destroy".into(), "destroy_database succeeded while another destroy_database of the same path was deleting its files: the first one does not hold the lock while it deletes".into()));
+            }
+        } else {
+            match DB::open(mk(gate.clone())) {
+                Ok(db) => {
+                    let seen = db.get(ReadOptions::default(), b"k000").is_ok();
+                    fails.push(("c17:open-succeeds-during-destroy".into(), format!("DB::open succeeded while destroy_database was in the middle of deleting the files of the same database (the new owner {} key k000): destroy does not hold the lock while it deletes", if seen { "could still read" } else { "could not read" })));
+                    gate.release.store(true, SeqCst);
+                    let _ = destroyer.join();
+                    drop(db);
+                    let _ = std::fs::remove_dir_all(&base);
+                    return fails;
+                }
+                Err(_) => {}
+            }
+        }
+    }
+    gate.release.store(true, SeqCst);
+    match destroyer.join() {
+        Ok(true) => {}
+        Ok(false) => fails.push(("c17:destroy-of-a-closed-database-fails".into(), "destroy_database of a closed database returned an error".into())),
+        Err(_) => fails.push(("c17:destroy-panics".into(), "destroy_database panicked".into())),
+    }
+    // afterwards the path is free: a fresh database can be created there
+    match DB::open(mk(gate.clone())) {
+        Ok(db) => {
+            if db.get(ReadOptions::default(), b"k000").is_ok() {
+                fails.push(("c17:destroyed-database-still-has-data".into(), "after destroy_database a new database at the same path still returns old data".into()));
+            }
+        }
+        Err(e) => fails.push(("c17:open-after-destroy-failed".into(), format!("opening a new database after destroy_database failed: {e}"))),
+    }
+    let _ = std::fs::remove_dir_all(&base);
+    fails
+}
+
 fn close_during_table_compaction(seed: u64) -> Vec<Fail> {
     use std::sync::atomic::Ordering::SeqCst;
     use std::time::{Duration, Instant};
@@ -416,7 +564,7 @@ fn close_during_table_compaction(seed: u64) -> Vec<Fail> {
 static STAGED: std::sync::atomic::AtomicUsize = std::sync::atomic::AtomicUsize::new(0);
 
 pub fn rule() -> &'static str {
-    "disk-backed TmpFileSystem: an owner opens and writes; 2-4 barrier-released threads concurrently try DB::open / destroy_database on the same path (all must fail, the owner keeps reading and writing correctly); in half of the scenarios the owner is closed while its compaction thread is parked in the middle of a flush (scheduling hook) and DB::open / destroy_database are tried until the close has finished (all must fail); after the owner closes, 2-5 barrier-released opens race (exactly one wins and sees every write); destroy_database afterwards. Non-trivial = the scenario ran; distinct by seed."
+    "disk-backed TmpFileSystem: an owner opens and writes; 2-4 barrier-released threads concurrently try DB::open / destroy_database on the same path (all must fail, the owner keeps reading and writing correctly); in half of the scenarios the owner is closed while its compaction thread is parked in the middle of a flush (scheduling hook) and DB::open / destroy_database are tried until the close has finished (all must fail); after the owner closes, 2-5 barrier-released opens race (exactly one wins and sees every write); destroy_database afterwards; in one scenario in six destroy_database of a closed database is parked at its first removal (a filesystem wrapper) and DB::open or a second destroy_database is tried meanwhile (must fail), then the path must be free for a new, empty database. Non-trivial = the scenario ran; distinct by seed."
 }
 
 pub fn run(tier: &str, seed: u64, replay: Option<&str>, drv_path: &str) -> Report {
@@ -431,6 +579,21 @@ pub fn run(tier: &str, seed: u64, replay: Option<&str>, drv_path: &str) -> Repor
     };
     for s in seeds {
         let table_compaction = replay.map_or(s % 3 == 0, |l| l.contains("close=table-compaction"));
+        let during_destroy = replay.map_or(s % 3 == 1 && s % 2 == 0, |l| l.contains("open=during-destroy"));
+        if during_destroy {
+            let line = format!("c17 seed={s} open=during-destroy");
+            rep.case(&line, true);
+            rep.count("c17.open-during-destroy");
+            match with_deadline(60, move || open_during_destroy(s)) {
+                None => rep.fail("hang", "c17:hang", "scenario did not finish within 60 s", &line),
+                Some(fails) => {
+                    for (sig, what) in fails {
+                        rep.fail("oracle", &sig, &what, &line);
+                    }
+                }
+            }
+            continue;
+        }
         let line = if table_compaction { format!("c17 seed={s} close=table-compaction") } else { format!("c17 seed={s}") };
         rep.case(&line, true);
         let dp = drv_path.to_string();
